@@ -18,12 +18,22 @@ def opNode : Handler := fun j => do
   let vals ← getFs j "val"
   let n := proj.size
   if proj.any Float.isNaN ∨ thr.isNaN then throw "bad-op: NaN projection"
-  let isPerm := decide (sorted.length = n) && (List.range n).all (fun i => sorted.contains i)
-  let sp := sorted.map fun i => proj.getD i 0.0
-  let asc := (List.range (n - 1)).all fun k => decide (sp.getD k 0.0 ≤ sp.getD (k + 1) 0.0)
-  let med := sp.getD ((n - 1) / 2) 0.0
-  let left := (List.range n).map (sideMask n sorted r .left)
-  let right := (List.range n).map (sideMask n sorted r .right)
+  -- Large nodes (tens of thousands of rows): the model's definitions are quadratic (`List.contains` per position), so
+  -- the masks are computed by scattering the selected positions into an array; on every node of at most 512 rows the
+  -- result is cross-checked against the model's own `sideMask`, and a difference is reported as an error.
+  let sortedA := sorted.toArray
+  let seen := sortedA.foldl (fun (a : Array Bool) i => a.setIfInBounds i true) (Array.replicate n false)
+  let isPerm := decide (sorted.length = n) && seen.all id
+  let spA := sortedA.map fun i => proj.getD i 0.0
+  let asc := (List.range (n - 1)).all fun k => decide (spA.getD k 0.0 ≤ spA.getD (k + 1) 0.0)
+  let med := spA.getD ((n - 1) / 2) 0.0
+  let scatter (sel : List Nat) : List Bool :=
+    (sel.foldl (fun (a : Array Bool) i => a.setIfInBounds i true) (Array.replicate n false)).toList
+  let left := scatter (maskSel n sorted r leftMaskParts)
+  let right := scatter (maskSel n sorted r rightMaskParts)
+  if n ≤ 512 then
+    if left != (List.range n).map (sideMask n sorted r .left) || right != (List.range n).map (sideMask n sorted r .right) then
+      throw "driver-self-check: scattered mask differs from the model's sideMask"
   let goes := (List.range n).map fun i => goesLeft (proj.getD i 0.0) thr
   let vgoes := vals.toList.map fun v => valGoesLeft v thr
   let pgoes := vals.toList.map fun v => goesLeft v thr
